@@ -267,7 +267,7 @@ PROPS["C01"] = {
     "level": "proof",
     "technique": "Lean 4 invariants over an executable small-step model of the mint (effect-level for all schedules/crashes/faults; by induction over sequential histories) + differential correspondence and model-free double-spend monitors against the real mint",
     "design_ref": "DESIGN.md §4.1, §5 C01",
-    "text": "PROVED for the model: (all programs, all interleavings, crash prefixes, injected storage faults) a row of the spent table is never removed or altered and the table never holds two rows for one secret (spent_forever_effect/_crash/_history, spent_once_effect); a spent secret is reported SPENT with its witness (spent_reported). (Sequential fault-free histories, by induction over the op list) swap and melt refuse a request as soon as one input secret is spent or locked by an in-flight melt, whatever its other fields and position, and then change no table (swap_rejects_used, melt_rejects_used); an accepted swap took pairwise distinct, previously unused secrets and all of them are spent afterwards (swap_ok_consumes); once consumed a secret is refused after ANY later history incl. rotations/restarts (consumed_rejected_forever); no secret is both locked and spent (locked_not_spent). (Every event sequence of arrivals, single-call scheduler steps, injected storage errors and process kills — Model/MintConc.lean, no bound on threads or steps) spent rows persist, the spent and pending tables never hold a secret twice, and a request arriving afterwards with a spent secret is refused (spent_forever_schedule, spent_once_schedule, locked_once_schedule, used_refused_after_anything). The request-level concurrent half (of two OVERLAPPING requests at most one is accepted) is FALSE of the code: schedules_full_false with kernel-checked witnesses w1 (swap||melt) and w2 (melt||melt), reproduced against the real mint by stream mint-sched and recorded as known findings C01/sched/*.",
+    "text": "PROVED for the model: (all programs, all interleavings, crash prefixes, injected storage faults) a row of the spent table is never removed or altered and the table never holds two rows for one secret (spent_forever_effect/_crash/_history, spent_once_effect); a spent secret is reported SPENT with its witness (spent_reported). (Sequential fault-free histories, by induction over the op list) swap and melt refuse a request as soon as one input secret is spent or locked by an in-flight melt, whatever its other fields and position, and then change no table (swap_rejects_used, melt_rejects_used); an accepted swap took pairwise distinct, previously unused secrets and all of them are spent afterwards (swap_ok_consumes); once consumed a secret is refused after ANY later history incl. rotations/restarts (consumed_rejected_forever); no secret is both locked and spent (locked_not_spent). (Every event sequence of arrivals, single-call scheduler steps, injected storage errors and process kills — Model/MintConc.lean, no bound on threads or steps) spent rows persist, the spent and pending tables never hold a secret twice, and a request arriving afterwards with a spent secret is refused (spent_forever_schedule, spent_once_schedule, locked_once_schedule, used_refused_after_anything). Any number of OVERLAPPING SWAPS never share a secret: in every event sequence (any threads of any kind, every schedule, faults, kills) two different swap threads that both returned signatures presented disjoint secrets (overlapping_swaps_never_share; Lemmas/SwapConc.lean: the swap program reaches success only through a SaveProofs(inputs) call that returned ok, which succeeds only on secrets absent from the never-shrinking spent table). The request-level concurrent half for ALL request kinds (of two OVERLAPPING requests at most one is accepted) is FALSE of the code once a melt is involved: schedules_full_false with kernel-checked witnesses w1 (swap||melt) and w2 (melt||melt), reproduced against the real mint by stream mint-sched and recorded as known findings C01/sched/*.",
     "note": MINT_NOTE + " Stream mint-sched runs two/three real requests as scheduled goroutines over one real mint (Gate in the storage proxy and the scripted backend: one storage/Lightning call per step; quick: every schedule with <= 1 preemption per scenario + random ones, thorough: <= 3 preemptions (2 for three threads)), the Lean model executes the same schedule step by step (labels, outcomes, later tables compared), and a model-free monitor counts the operations that accepted each contested secret. Scenario-level signatures: a double acceptance in a scenario not listed in known_findings.json is a VIOLATION.",
     "assumptions": MINT_ASSUME,
 }
